@@ -108,6 +108,12 @@ type recOpt struct {
 	A uint8
 	P *rec3 `rlp:"nil"`
 }
+type recOptS struct {
+	A uint8
+	S *[2]byte  `rlp:"nil"`
+	U *uint16   `rlp:"nil"`
+	L *[]uint16 `rlp:"nil"`
+}
 
 // decode `in` through every API and emit one event
 func probe(w *vw, in []byte, src string) {
@@ -175,6 +181,7 @@ func probe(w *vw, in []byte, src string) {
 	tryT("u16s", func() interface{} { return new([]uint16) })
 	tryT("rec3", func() interface{} { return new(rec3) })
 	tryT("recOpt", func() interface{} { return new(recOpt) })
+	tryT("recOptS", func() interface{} { return new(recOptS) })
 	tryT("raw", func() interface{} { return new(RawValue) })
 	tryT("fats", func() interface{} { return new([]fat) })
 	tryT("recps", func() interface{} { return new([]*rec3) })
@@ -259,6 +266,12 @@ func TestVerifRLP(t *testing.T) {
 	add(rec3{A: 7, B: []byte{1, 2, 3}, C: big.NewInt(1 << 40), T: []uint16{1, 256, 65535}})
 	add(rec3{A: 0, B: nil, C: big.NewInt(0)})
 	add(recOpt{A: 1})
+	add(recOptS{A: 1})
+	add(recOptS{A: 2, S: &[2]byte{1, 2}, U: new(uint16), L: &[]uint16{}})
+	// the empty value of either kind where a pointer with the "nil" tag is expected
+	for _, raw := range [][]byte{{0xc2, 1, 0x80}, {0xc2, 1, 0xc0}, {0xc4, 1, 0x80, 0x80, 0xc0}, {0xc4, 1, 0xc0, 0x80, 0xc0}, {0xc4, 1, 0x80, 0xc0, 0xc0}, {0xc4, 1, 0x80, 0x80, 0x80}, {0xc4, 1, 0xc0, 0xc0, 0x80}} {
+		seeds = append(seeds, raw)
+	}
 	add(recOpt{A: 255, P: &rec3{A: 1 << 63, B: make([]byte, 60), C: big.NewInt(3)}})
 	add([]interface{}{[]interface{}{}, []interface{}{[]interface{}{}}, []byte{}, []byte{0x7f}, []byte{0x80}})
 	// consensus-shaped records: a header-like and a transaction-like list with 32-byte and 20-byte strings
